@@ -221,9 +221,16 @@ pub fn generate(thorough: bool, seed: u64, out: &mut dyn Write) {
             }
         }
     }
+    // the inflater the model's `inflate` parameter is instantiated with is itself checked against
+    // zlib on every run: streams from zlib's deflate (all levels / strategies) and corrupted ones
+    crate::xinf::generate_n(if thorough { 1500 } else { 120 }, thorough, seed, out);
 }
 
 pub fn run(case: &str, input: &str) -> String {
+    if case.starts_with("inflate ") || case.starts_with("garbage ") {
+        // validation of the executable inflate model (Model/Inflate.lean) against zlib
+        return crate::xinf::run(case, input);
+    }
     let f: Vec<&str> = input.split(' ').collect();
     if f.len() != 2 {
         return "bad-case".into();
